@@ -12,7 +12,7 @@ Reuses the seams of the per-carrier harnesses (imported, not copied):
 A case (JSON):
   xs     [{"call": {"h": helper name | "send_message" | "send_initialize" | "raw", "method", "params",
                     "id": {"i"}|{"s"}|absent, "progress": bool (send_message with a progress callback),
-                    "reuse": bool (the very params object of the previous call), "form": "request"|"legacy"|"dict"
+                    "reuse": bool (the very params object of the previous call), "form": "request"|"legacy"|"dict"|"raising" (+ "exc": class name: an object that cannot be serialised)
                     and "pause": ticks between writing and reading (raw: the request is written to the write stream
                     and the answer awaited on the read stream by hand — ids the helpers cannot produce: 0, "")},
            "notifs": [{"method", "params"|absent}]   ("$TOK" in params = the progress token of the request),
@@ -57,10 +57,53 @@ SETTLE_TICKS = 6
 FINAL_SETTLE_TICKS = 64
 
 
+# ------------------------------------------------------------------------------- seams
+
+import contextvars
+
+INSTANCE = contextvars.ContextVar("verif_c15_instance", default=0)
+PROCS = {}      # command -> factory of the scripted child (one per transport instance)
+HANDLERS = {}   # host -> handler of the scripted HTTP server (one per transport instance)
+
+
+def host_of(inst):
+    return f"verif{inst}.test"
+
+
+def command_of(inst):
+    return f"verif-fake-child-{inst}"
+
+
+async def dispatch_http(request):
+    import httpx
+    h = HANDLERS.get(request.url.host)
+    if h is None:
+        return httpx.Response(502, text="no scripted server for this host")
+    return await h(request)
+
+
+def patch_open_process(mod):
+    """the `anyio.open_process` seam of stdio_h, dispatching on the command so that several scripted
+    children can live in one process (restored with `stdio_h._restore`)"""
+    import anyio
+
+    async def fake_open_process(command, *a, **k):
+        return PROCS[command[0]]()
+
+    saved = [(anyio, "open_process", anyio.open_process)]
+    anyio.open_process = fake_open_process
+    if hasattr(mod, "open_process"):
+        saved.append((mod, "open_process", mod.open_process))
+        mod.open_process = fake_open_process
+    return saved
+
+
 # ------------------------------------------------------------------------------- conversation
 
 def json_all(case, k) -> bool:
     w = (case.get("wire") or {}).get("json") or []
+    if isinstance(w, dict):
+        return bool(w.get("all"))
     return bool(k < len(w) and (w[k] or {}).get("all"))
 
 
@@ -260,7 +303,7 @@ class WriteTap:
 
     async def send(self, msg):
         get = (lambda k: msg.get(k)) if isinstance(msg, dict) else (lambda k: getattr(msg, k, None))
-        if get("id") is not None and get("method") is not None:
+        if get("id") is not None and get("method") is not None and not isinstance(msg, Unsendable):
             self._ids.append(get("id"))
             self._sent.append({"id": get("id"), "method": get("method"), "params": jsonable(get("params"))})
             self._calls.append(self.current)
@@ -343,6 +386,31 @@ def nth(lst, k, dflt):
 
 # ------------------------------------------------------------------------------- helpers
 
+class StrRaises(Exception):
+    def __str__(self):
+        raise RuntimeError("str() of this exception raises")
+
+
+EXC_CLASSES = {c.__name__: c for c in (TypeError, ValueError, KeyError, IndexError, AttributeError, RuntimeError, RecursionError,
+                                       OSError, Exception, StrRaises)}
+
+
+class Unsendable:
+    """a message object whose serialisation raises: it looks like a request, and every way a transport
+    may turn it into JSON fails with the given exception"""
+
+    jsonrpc = "2.0"
+    params = None
+
+    def __init__(self, rid, method, exc):
+        self.id, self.method, self._exc = rid, method, exc
+
+    def _boom(self, *a, **k):
+        raise self._exc("scripted: this message cannot be serialised")
+
+    model_dump = model_dump_json = dict = json = _boom
+
+
 def typed_eq(a, b):
     return type(a) is type(b) and a == b
 
@@ -376,7 +444,9 @@ async def call_helper(call, rd, wr, D_s, memo):
             from chuk_mcp.protocol.messages.json_rpc_message import create_request, JSONRPCMessage
             rid = G.idval(call["id"])
             form = call.get("form", "request")
-            if form == "dict":
+            if form == "raising":
+                msg = Unsendable(rid, call.get("method", "tools/list"), EXC_CLASSES[call.get("exc", "TypeError")])
+            elif form == "dict":
                 msg = {"jsonrpc": "2.0", "id": rid, "method": call.get("method", "tools/list")}
                 if params is not None:
                     msg["params"] = params
@@ -418,13 +488,13 @@ async def call_helper(call, rd, wr, D_s, memo):
     return dict({"outcome": "returned", "value": jsonable(res)}, **extra)
 
 
-async def converse(rd, wr, case, obs, server):
+async def converse(rd, wr, case, obs, server, lo=0, hi=None):
     import anyio
     loop = asyncio.get_running_loop()
     tap = Tap(rd, obs["transcript"])
     wtap = WriteTap(wr, obs["ids"], obs["sent"], obs["sent_calls"])
     memo = {}
-    for i, x in enumerate(case["xs"]):
+    for i, x in list(enumerate(case["xs"]))[lo:hi]:
         wtap.current = i
         D_s = x.get("D", case.get("D", 5120)) * vloop.TICK
         obs["outcomes"].append(await call_helper(x["call"], tap, wtap, D_s, memo))
@@ -455,9 +525,14 @@ async def drive(ttype, params, case, obs, server):
         await client_session(ttype, params, case, obs, server)
     elif case.get("via") == "transport":
         t = make_transport(ttype, params, obs)
+        split = case.get("reenter")  # the same transport object is left and entered again before exchange `split`
         async with t:
             rd, wr = await t.get_streams()
-            await converse(rd, wr, case, obs, server)
+            await converse(rd, wr, case, obs, server, 0, split)
+        if split is not None:
+            async with t:
+                rd, wr = await t.get_streams()
+                await converse(rd, wr, case, obs, server, split, None)
     else:
         async with make_client(ttype, params, obs) as (rd, wr):
             await converse(rd, wr, case, obs, server)
@@ -658,7 +733,6 @@ def cut_local(block: bytes, cuts):
 
 async def run_stdio(case, obs):
     loop = asyncio.get_running_loop()
-    mod = stdio_h.stdio_module()
     server = Server(case, obs)
     out = PushStream(loop)
     w = wire_of(case, "stdio") or {}
@@ -729,16 +803,26 @@ async def run_stdio(case, obs):
         async def aclose(self):
             return None
 
-    proc = stdio_h.FakeProcess([])
-    proc.stdin = Stdin()
-    proc.stdout = Stdout()
-    holder = {"proc": proc}
-    saved = stdio_h._patched(mod, holder)
+    inst = INSTANCE.get()
+
+    def new_proc():
+        # (a transport object entered a second time starts its child again)
+        nonlocal out
+        out = PushStream(loop)
+        buf.clear()
+        proc = stdio_h.FakeProcess([])
+        proc.stdin = Stdin()
+        proc.stdout = Stdout()
+        obs["spawned"] = obs.get("spawned", 0) + 1
+        return proc
+
+    PROCS[command_of(inst)] = new_proc
     try:
         from chuk_mcp.transports.stdio.parameters import StdioParameters
-        await drive("stdio", StdioParameters(command="verif-fake-child", args=[]), case, obs, server)
+        o = dict((case.get("opts") or {}).get("stdio") or {})
+        await drive("stdio", StdioParameters(command=command_of(inst), args=list(o.get("args") or []), env=o.get("env")), case, obs, server)
     finally:
-        stdio_h._restore(saved)
+        PROCS.pop(command_of(inst), None)
         obs["wire"] = {"crlf": sent["crlf"], "cuts": sent["cuts"][:-1] if sent["cuts"] else [], "hex": sent["bytes"].hex()}
 
 
@@ -797,10 +881,15 @@ async def run_http(case, obs, form):
         obs.setdefault("bodies", []).append({"status": c.get("status", 200), "text": text})
         return httpx.Response(c.get("status", 200), headers=headers, content=raw)
 
-    with http_h._MockPatch(handler):
+    inst = INSTANCE.get()
+    HANDLERS[host_of(inst)] = handler
+    try:
         from chuk_mcp.transports.http.http_client import create_http_parameters_from_url
-        params = create_http_parameters_from_url(http_h.URL, timeout=TRANSPORT_TIMEOUT_S)
+        o = dict((case.get("opts") or {}).get("http") or {})
+        params = create_http_parameters_from_url(f"http://{host_of(inst)}/mcp", timeout=TRANSPORT_TIMEOUT_S, **o)
         await drive("http", params, case, obs, server)
+    finally:
+        HANDLERS.pop(host_of(inst), None)
 
 
 # ------------------------------------------------------------------------------- legacy SSE
@@ -840,8 +929,9 @@ async def run_sse(case, obs):
 
     class ByteStream(httpx.AsyncByteStream):
         async def __aiter__(self):
+            mine = stream
             while True:
-                item = await stream.get()
+                item = await mine.get()
                 if item is None:
                     return
                 yield item
@@ -855,7 +945,9 @@ async def run_sse(case, obs):
         return f
 
     async def handler(request):
+        nonlocal stream
         if request.method == "GET":
+            stream = PushStream(loop)  # (a transport object entered a second time connects again)
             b = pre_bytes(pre)
             sent["bytes"] += b
             sent["pos"] += len(b)
@@ -919,12 +1011,15 @@ async def run_sse(case, obs):
         await at_future(loop, now + lat + 2 * a - 1)
         return httpx.Response(202, text="Accepted")
 
+    inst = INSTANCE.get()
+    HANDLERS[host_of(inst)] = handler
     try:
-        with http_h._MockPatch(handler):
-            from chuk_mcp.transports.sse.sse_client import create_sse_parameters_from_url
-            params = create_sse_parameters_from_url("http://verif.test", timeout=TRANSPORT_TIMEOUT_S)
-            await drive("sse", params, case, obs, server)
+        from chuk_mcp.transports.sse.sse_client import create_sse_parameters_from_url
+        o = dict((case.get("opts") or {}).get("sse") or {})
+        params = create_sse_parameters_from_url(f"http://{host_of(inst)}", timeout=TRANSPORT_TIMEOUT_S, **o)
+        await drive("sse", params, case, obs, server)
     finally:
+        HANDLERS.pop(host_of(inst), None)
         # chunk boundaries in characters (what `aiter_text` hands over piece by piece)
         cuts = [len(sent["bytes"][:c].decode("utf-8", errors="ignore")) for c in sent["cuts"][:-1]]
         obs["wire"] = {"crlf": sent["crlf"], "cuts": cuts, "acks": sent["acks"], "pre": pre}
@@ -938,18 +1033,28 @@ def fresh_obs():
 
 def run_carrier(case, carrier):
     """one conversation over one real carrier, under the virtual-time loop, with deterministic
-    request ids (`uuid.uuid4` seam) so that every carrier's client generates the same ids"""
+    request ids (`uuid.uuid4` seam) so that every carrier's client generates the same ids.
+    `case["twin"] = n`: n transport instances of this carrier alive at once in the one process, each
+    with its own scripted server, playing the same conversation simultaneously (equal ids, equal
+    virtual instants); `case["debug"]`: the host has logging configured at DEBUG."""
+    import os
+    import sys
     import uuid
+    import anyio
 
-    obs = fresh_obs()
-    counter = {"n": 0}
+    n = max(1, int(case.get("twin", 1)))
+    all_obs = [fresh_obs() for _ in range(n)]
+    counters = [0] * n
     real_uuid4 = uuid.uuid4
 
     def fake_uuid4():
-        counter["n"] += 1
-        return uuid.UUID(int=(0xC15 << 100) + counter["n"])
+        i = INSTANCE.get()
+        counters[i] += 1
+        return uuid.UUID(int=(0xC15 << 100) + counters[i])
 
-    async def main():
+    async def one(i):
+        INSTANCE.set(i)
+        obs = all_obs[i]
         try:
             if carrier == "stdio":
                 await run_stdio(case, obs)
@@ -964,17 +1069,52 @@ def run_carrier(case, carrier):
         except Exception as ex:  # the transport's context manager (or a helper's plumbing) raised
             obs["crash"] = type(ex).__name__
 
+    async def main():
+        if n == 1:
+            await one(0)
+        else:
+            async with anyio.create_task_group() as tg:
+                for i in range(n):
+                    tg.start_soon(one, i)
+
+    env_token = ((case.get("opts") or {}).get("env") or {}).get("MCP_BEARER_TOKEN")
+    prev_token = os.environ.get("MCP_BEARER_TOKEN")
+    restore_logging = None
+    saved = patch_open_process(stdio_h.stdio_module())
     uuid.uuid4 = fake_uuid4
+    real_stderr = sys.stderr
     try:
-        dl = sse_h.guarded_run(main, tie=case.get("tie", "events"))
+        if case.get("debug"):
+            from .await_h import _debug_logging
+            restore_logging = _debug_logging()
+        if env_token is not None:
+            os.environ["MCP_BEARER_TOKEN"] = env_token
+        if case.get("quiet_stderr"):
+            import io
+            sys.stderr = io.StringIO()  # (a transport prints the traceback of a message it cannot serialise)
+        with http_h._MockPatch(dispatch_http):
+            dl = sse_h.guarded_run(main, tie=case.get("tie", "events"))
         if dl is not None:
-            obs["deadlock"] = [x for x in dl if "run_carrier" not in x]
+            for o in all_obs:
+                o["deadlock"] = [x for x in dl if "run_carrier" not in x]
     except BaseException as ex:  # harness failure, not an observation
         if isinstance(ex, (KeyboardInterrupt, SystemExit)):
             raise
-        obs["harness_error"] = repr(ex)[:300]
+        all_obs[0]["harness_error"] = repr(ex)[:300]
     finally:
+        sys.stderr = real_stderr
         uuid.uuid4 = real_uuid4
+        stdio_h._restore(saved)
+        if restore_logging is not None:
+            restore_logging()
+        if env_token is not None:
+            if prev_token is None:
+                os.environ.pop("MCP_BEARER_TOKEN", None)
+            else:
+                os.environ["MCP_BEARER_TOKEN"] = prev_token
+    obs = all_obs[0]
+    if n > 1:
+        obs["twins"] = all_obs[1:]
     return obs
 
 
